@@ -66,9 +66,17 @@ def base_type(ty):
     return m.group(0) if m else ty
 
 
+def table_entry(table, s):
+    """reviewed entry of a sink: by its name based key or by its origin based key"""
+    e = table.get(s.key)
+    if e is None:
+        e = table.get(getattr(s, "okey", s.key))
+    return e
+
+
 class Sink:
     __slots__ = ("body", "bb", "kind", "detail", "ops", "tainted", "loc", "sp", "key", "term", "callsite", "expansion",
-                 "tops")
+                 "tops", "okey", "odetail")
 
 
 class Taint:
@@ -439,6 +447,13 @@ class Taint:
             self.changed = True
 
     def propagate_call(self, body, cs):
+        if cs.fn is not None and cs.name == "then_some" and "bool" in (cs.callee or "") and len(cs.args) == 2:
+            # `cond.then_some(v)`: the payload of the result is `v`; `cond` only selects between Some and None (as the branch
+            # of the equivalent `if cond { Some(v) } else { None }` would), it does not flow into the payload
+            ps = self.operand_paths(body, cs.args[1])
+            if ps:
+                self.taint_place(body, cs.dest, tuple(("Some.0",) + tuple(q) for q in ps))
+            return
         args_t = [self.operand_tainted(body, a) for a in cs.args]
         any_t = any(args_t)
         dest_t = False
@@ -511,6 +526,15 @@ class Taint:
             base = "%s#%s:%s" % (root, s.kind, s.detail)
             s.key = "%s#%d" % (base, ordinal[base])
             ordinal[base] += 1
+            # second key that does not depend on the names of locals: operands are described by where their values come from
+            # (parameters by position), so introducing, renaming or removing a temporary leaves it unchanged
+            od = getattr(s, "odetail", None)
+            if od is None:
+                s.okey = s.key
+            else:
+                obase = "%s#%s:~%s" % (root, s.kind, od)
+                s.okey = "%s#%d" % (obase, ordinal[obase])
+                ordinal[obase] += 1
         return out
 
     def body_sinks(self, body):
@@ -557,6 +581,7 @@ class Taint:
                 tainted = [True]
             detail = " ".join(operand_name(body, o, e) for o, e in zip(ops, exs))
             s = mk(bb, kind, detail, exs, tainted, t["sp"], t)
+            s.odetail = " ".join(compact(R_pos(e)) for e in exs)
             out.append(s)
         for cs in body.calls():
             if cs.fn is None:
